@@ -471,7 +471,8 @@ EMPTY = {'ok': False, 'pre': 0, 'post': 0, 'own': [], 'uown': [], 'uoOk': False,
 
 TRIVIA_POOL = [True, False, 'all', 'block', 'none', 'all-', 'block+1', '+2', '-1', (), ('all',), ('block',), ('none',),
                ('line',), (False, False), ('all', 'all'), ('block', 'block'), ('none', 'line+1'), ('all-1', 'all+'),
-               ('none', 'block'), ('all', False), (True, 'all-1')]
+               ('none', 'block'), ('all', False), (True, 'all-1'), ('block', 'none'), (True, False), ('all', 'none'),
+               ('block-1', False), ('+1', 'none')]
 
 
 def make_hooks(tt: TokTables):
@@ -488,7 +489,7 @@ def make_hooks(tt: TokTables):
 
     def pre(root, plan, o, rng):
         # widen the driver's option pool: every documented form of the `trivia` option, line numbers included
-        if not plan.corrupt and rng.random() < 0.3:
+        if not plan.corrupt and rng.random() < 0.45:
             nl = len(root.lines)
             pool = TRIVIA_POOL + [rng.randrange(nl), (rng.randrange(nl), rng.randrange(nl)), ('block', rng.randrange(nl)),
                                   (rng.randrange(nl), 'line'), (rng.randrange(nl), 'all')]
